@@ -160,12 +160,21 @@ func (ch *child) stop() {
 
 const childJobs = 300 // a child is replaced after this many cases (sessions leak goroutines)
 
-// do runs one job in the child; ok=false if the child died or produced garbage.
-func (ch *child) do(j *job) (*result, bool) {
+type childStatus int
+
+const (
+	stOK      childStatus = iota
+	stDied                // the child process ended (signal, panic, exit) instead of answering
+	stTimeout             // no answer in time (child killed)
+	stGarbage             // an answer that is not the result of this job
+)
+
+// do runs one job in the child.
+func (ch *child) do(j *job) (*result, childStatus) {
 	b, _ := json.Marshal(j)
 	b = append(b, '\n')
 	if _, err := ch.in.Write(b); err != nil {
-		return nil, false
+		return nil, stDied
 	}
 	type lineT struct {
 		b   []byte
@@ -180,17 +189,58 @@ func (ch *child) do(j *job) (*result, bool) {
 	case l := <-lc:
 		var res result
 		if json.Unmarshal(l.b, &res) != nil || res.ID != j.ID {
-			return nil, false
+			if l.err != nil {
+				return nil, stDied // end of the child's output
+			}
+			return nil, stGarbage
 		}
 		ch.count++
-		return &res, true
+		return &res, stOK
 	case <-time.After(3*hangAfter + 30*time.Second):
 		ch.cmd.Process.Kill()
-		return nil, false
+		return nil, stTimeout
 	}
 }
 
+// reap waits for a child that died and describes how.
+func (ch *child) reap() (how, stderr string) {
+	ch.in.Close()
+	done := make(chan error, 1)
+	go func() { done <- ch.cmd.Wait() }()
+	var err error
+	select {
+	case err = <-done:
+	case <-time.After(10 * time.Second):
+		ch.cmd.Process.Kill()
+		err = <-done
+	}
+	how = "exit status 0"
+	if err != nil {
+		how = err.Error()
+	}
+	return how, ch.err.String()
+}
+
+// harnessExit: the child ended itself with one of its own error messages.
+func harnessExit(stderr string) bool {
+	return strings.Contains(stderr, "c13 child:") || strings.Contains(stderr, "c13: cannot")
+}
+
+type crash struct {
+	j      *job
+	how    []string
+	stderr string
+}
+
 // runJobs executes jobs on a pool of children; handle is called serially.
+//
+// A child that DIES on a job (SIGABRT from a C library, SIGSEGV, a Go panic that
+// nothing recovers) is not a machinery problem: the job is repeated, alone, in two
+// fresh children; if the process dies each time, the case is recorded as a crash (a
+// violation, see reportCrashes); if not, the result of the repetition is used (the
+// death may have been caused by goroutines left over from an earlier job of that
+// child) and the incident is noted. Time-outs, garbage and children that end with
+// one of the harness' own error messages stay machinery errors.
 func (c *checker) runJobs(jobs []*job, handle func(*job, *result)) {
 	if len(jobs) == 0 {
 		return
@@ -202,6 +252,11 @@ func (c *checker) runJobs(jobs []*job, handle func(*job, *result)) {
 	}
 	jc := make(chan *job)
 	var wg sync.WaitGroup
+	machinery := func(format string, a ...interface{}) {
+		mu.Lock()
+		c.r.Machinery(fmt.Sprintf(format, a...))
+		mu.Unlock()
+	}
 	for w := 0; w < workers; w++ {
 		wg.Add(1)
 		go func() {
@@ -213,28 +268,69 @@ func (c *checker) runJobs(jobs []*job, handle func(*job, *result)) {
 					if ch == nil {
 						ch = startChild()
 					}
-					r, ok := ch.do(j)
-					if !ok {
+					r, st := ch.do(j)
+					if st == stOK {
+						res = r
+						break
+					}
+					if st != stDied {
 						stderr := ch.err.String()
 						ch.cmd.Process.Kill()
 						ch.cmd.Wait()
 						ch = nil
 						if attempt == 1 {
-							mu.Lock()
-							c.r.Machinery(fmt.Sprintf("child failed twice on case %s: %s", c.caseName(j), tail(stderr, 1500)))
-							mu.Unlock()
+							machinery("child gave no (valid) answer twice on case %s: %s", c.caseName(j), tail(stderr, 1500))
 						}
 						continue
 					}
-					res = r
-					if res.Hang || ch.count >= childJobs {
-						if res.Hang {
-							ch.cmd.Wait()
-						} else {
-							ch.stop()
-						}
-						ch = nil
+					// the child died
+					how, stderr := ch.reap()
+					ch = nil
+					if harnessExit(stderr) {
+						machinery("child ended itself on case %s (%s): %s", c.caseName(j), how, tail(stderr, 1500))
+						break
 					}
+					cr := crash{j: j, how: []string{how}, stderr: stderr}
+					for i := 0; i < 2 && res == nil; i++ {
+						fresh := startChild()
+						r2, st2 := fresh.do(j)
+						switch st2 {
+						case stOK:
+							res = r2
+							fresh.stop()
+						case stDied:
+							how2, stderr2 := fresh.reap()
+							cr.how = append(cr.how, how2)
+							if len(stderr2) > 0 {
+								cr.stderr = stderr2 // of a child that ran nothing else
+							}
+						default:
+							fresh.cmd.Process.Kill()
+							fresh.cmd.Wait()
+							cr.how = append(cr.how, "no answer")
+						}
+					}
+					mu.Lock()
+					if res == nil && len(cr.how) == 3 && cr.how[1] != "no answer" && cr.how[2] != "no answer" {
+						c.crashes = append(c.crashes, cr)
+					} else if res != nil {
+						c.mech["child died once, case fine when repeated alone in a fresh child"]++
+						if c.mech["child died once, case fine when repeated alone in a fresh child"] <= 5 {
+							c.r.Note("child died (%s) while running %s; not reproduced in a fresh child: %s", how, c.caseName(j), tail(stderr, 600))
+						}
+					} else {
+						c.r.Machinery(fmt.Sprintf("child died on case %s and the repetitions gave no answer: %v", c.caseName(j), cr.how))
+					}
+					mu.Unlock()
+					break
+				}
+				if ch != nil && res != nil && (res.Hang || ch.count >= childJobs) {
+					if res.Hang {
+						ch.cmd.Wait()
+					} else {
+						ch.stop()
+					}
+					ch = nil
 				}
 				if res != nil {
 					mu.Lock()
@@ -301,6 +397,10 @@ type checker struct {
 	faultRun int
 	sampled  map[string]bool
 	phase    string
+	crashes  []crash
+	// reuseOK: the UNCACHED program survives Discard + reuse with the right rows on
+	// this executor (the baseline of the reuse histories)
+	reuseOK map[string]bool
 }
 
 type pendingViol struct {
@@ -313,7 +413,7 @@ func newChecker(r *ev.Run) *checker {
 	return &checker{r: r, valid: map[string]map[int][]byte{}, keyShard: map[int]map[string]int{}, logs: map[string][]string{},
 		memo: map[string]*result{}, waiting: map[string][]firstRun{},
 		pending: map[string]*pendingViol{}, nontriv: ev.NewCounter(), outcomes: ev.NewCounter(), states: ev.NewCounter(), mech: map[string]int{},
-		sampled: map[string]bool{}}
+		sampled: map[string]bool{}, reuseOK: map[string]bool{}}
 }
 
 func (c *checker) newJob(p prog, kind string, files map[int][]byte, faults []fault) *job {
@@ -816,7 +916,25 @@ func (c *checker) reference(progs []prog) {
 			jobs = append(jobs, j)
 		}
 	}
+	for _, p := range progs {
+		for _, k := range executors {
+			j := c.newJob(p, k, nil, nil)
+			j.Plain, j.Reuse = true, true
+			jobs = append(jobs, j)
+		}
+	}
 	c.runJobs(jobs, func(j *job, res *result) {
+		if j.Reuse {
+			// baseline of the reuse histories: does the uncached program give the same
+			// rows again after Discard + reuse? (If not, that is not C13's business
+			// and the reuse oracle is not applied to this program on this executor.)
+			ok := !res.Hang && res.Run.OK && res.Run.Reuse != nil && res.Run.Reuse.OK && c.rowsOK(j.Prog, res.Run.Reuse.Rows)
+			c.reuseOK[j.Prog.Name()+"/"+j.Exec] = ok
+			if !ok {
+				c.r.Note("uncached program %s on %s does not survive Discard + reuse (%+v); reuse histories not judged for it", j.Prog.Name(), j.Exec, res.Run)
+			}
+			return
+		}
 		if res.Hang || !res.Run.OK {
 			ev.Fatal("uncached program %s on %s did not run: hang=%v %s", j.Prog.Name(), j.Exec, res.Hang, res.Run.Err)
 		}
@@ -961,6 +1079,157 @@ func (c *checker) subsetsPhase(progs []prog) {
 			c.r.Sample(map[string]interface{}{"case": c.caseName(j), "run": res.Run, "files_after": keysOf(res.After)})
 		}
 	})
+}
+
+func (c *checker) rowsOK(p prog, rows []string) bool {
+	exp := expectedRows(p)
+	if !sameMultiset(rows, exp) {
+		return false
+	}
+	return !p.ordered() || sameSeq(rows, exp)
+}
+
+// reusePhase: histories inside ONE later session over files left by a completed first
+// run: res = Run(program) (cached shards are served from their files); scan;
+// res.Discard(); Run(consumer, res); scan. The second computation makes the session
+// evaluate the same compiled (cached) tasks again. Both evaluations must yield the
+// rows of the uncached program, and no upstream user function of a cached shard may
+// run in the whole session. Files: all valid; for CachePartial and the Head programs
+// also all but shard 0.
+func (c *checker) reusePhase(progs []prog) {
+	c.phase = "reuse"
+	var jobs []*job
+	for _, p := range progs {
+		masks := []int{7}
+		if p.Op == "partial" || p.underHead() {
+			masks = []int{7, 6}
+		}
+		for _, mask := range masks {
+			for _, k := range executors {
+				if !c.reuseOK[p.Name()+"/"+k] {
+					continue
+				}
+				j := c.newJob(p, k, c.filesFor(p, mask), nil)
+				j.Reuse = true
+				jobs = append(jobs, j)
+			}
+		}
+	}
+	c.runJobs(jobs, func(j *job, res *result) {
+		c.mech["runs:reuse:"+j.Exec]++
+		if res.Hang {
+			c.r.Machinery(fmt.Sprintf("case %s: the run did not return within %v\n%s", c.caseName(j), hangAfter, tail(res.Dump, 3000)))
+			return
+		}
+		c.noteFlaky(j, res)
+		c.cases++
+		p, obs := j.Prog, res.Run
+		if obs.OK && obs.Reuse != nil {
+			c.mech["reuse histories with a second evaluation"]++
+			if len(cachedShards(p, obs.Before)) > 0 {
+				c.mech["reuse histories with cached shards"]++
+			}
+		}
+		vs := c.judgeReuse(j, res)
+		for _, v := range vs {
+			c.violate(j, v)
+		}
+		c.outcomes.Add(fmt.Sprintf("reuse: run=%s reuse=%v", outcome(obs), obs.Reuse != nil && obs.Reuse.OK))
+		if !c.sampled["reuse"] && j.Exec == "vsys" && p.underHead() {
+			c.sampled["reuse"] = true
+			c.r.Sample(map[string]interface{}{"case": c.caseName(j) + " [reuse history]", "run": obs})
+		}
+	})
+}
+
+// judgeReuse judges one reuse history.
+func (c *checker) judgeReuse(j *job, res *result) []viol {
+	p, obs := j.Prog, res.Run
+	detail := map[string]interface{}{"case": c.caseName(j), "job": j, "run": obs, "attempts": res.Attempts, "files_after": slim(res.After)}
+	// the first evaluation is an ordinary fault-free run (its call counts cover the
+	// whole session, which is what we want)
+	vs := c.judgeRun(j, "run1", res, detail)
+	vs = append(vs, c.judgeFiles(j, "after the session", res.After, detail)...)
+	if obs.OK && obs.Reuse != nil {
+		ro := obs.Reuse
+		switch {
+		case !ro.OK:
+			vs = append(vs, viol{
+				sig: fmt.Sprintf("C13/%s/%s/reuse-after-discard-fails", p.Name(), j.Exec),
+				what: fmt.Sprintf("%s: the run succeeded (files at start: %v); after Result.Discard, Run(consumer, result) in the same session failed in each of %d attempts: %s (the uncached program survives this)",
+					c.caseName(j), obs.Before, res.Attempts, ro.Err),
+				detail: detail,
+			})
+		case !c.rowsOK(p, ro.Rows):
+			vs = append(vs, viol{
+				sig: fmt.Sprintf("C13/%s/%s/wrong-rows/reuse-after-discard", p.Name(), j.Exec),
+				what: fmt.Sprintf("%s: (files at start: %v) after Result.Discard, Run(identity Map, result) in the same session yields %v; the uncached program yields %v (the first evaluation gave %v)",
+					c.caseName(j), obs.Before, ro.Rows, expectedRows(p), obs.Rows),
+				detail: detail,
+			})
+		}
+	}
+	return vs
+}
+
+// reportCrashes: a process that dies while running a case, three times out of three,
+// each time in a process of its own.
+func (c *checker) reportCrashes() {
+	seen := map[string]int{}
+	for _, cr := range c.crashes {
+		cls := faultClass(cr.j)
+		if cr.j.Reuse {
+			cls = "reuse-after-discard"
+		}
+		sig := fmt.Sprintf("C13/%s/%s/process-crashed/%s", cr.j.Prog.Name(), cr.j.Exec, cls)
+		seen[sig]++
+		if seen[sig] > 1 {
+			continue
+		}
+		n := 0
+		for _, x := range c.crashes {
+			c2 := faultClass(x.j)
+			if x.j.Reuse {
+				c2 = "reuse-after-discard"
+			}
+			if x.j.Prog == cr.j.Prog && x.j.Exec == cr.j.Exec && c2 == cls {
+				n++
+			}
+		}
+		what := "process crashed while reading a cached shard: " + c.caseName(cr.j)
+		if cr.j.Reuse {
+			what += " [run; scan; Result.Discard; Run(consumer, result)]"
+		}
+		what += fmt.Sprintf(": the process died in 3 of 3 attempts, each in a fresh process (%s): %s", strings.Join(cr.how, "; "), crashGist(cr.stderr))
+		if n > 1 {
+			what += fmt.Sprintf(" [%d cases with this signature]", n)
+		}
+		c.r.Violate(sig, what, map[string]interface{}{"case": c.caseName(cr.j), "job": cr.j, "how": cr.how, "stderr": tail(cr.stderr, 6000)})
+	}
+}
+
+// crashGist: the first lines of the crash output and the first bigslice frames.
+func crashGist(stderr string) string {
+	lines := strings.Split(stderr, "\n")
+	var out []string
+	for i, l := range lines {
+		l = strings.TrimSpace(l)
+		if l == "" {
+			continue
+		}
+		if len(out) < 3 && i < 12 {
+			out = append(out, l)
+			continue
+		}
+		if strings.Contains(l, "grailbio/bigslice") && !strings.HasPrefix(l, "/") && len(out) < 8 {
+			out = append(out, l)
+		}
+	}
+	s := strings.Join(out, " | ")
+	if len(s) > 700 {
+		s = s[:700] + "..."
+	}
+	return s
 }
 
 func contains(s []string, x string) bool {
@@ -1226,11 +1495,15 @@ func (c *checker) confirm() {
 					continue
 				}
 				var vs []viol
-				vs = append(vs, c.judgeFirst(&j, res1)...)
-				j2 := c.newJob(j.Prog, j.Exec, bytesOf(res1.After), nil)
-				c.runJobs([]*job{j2}, func(_ *job, res *result) { res2 = res })
-				if res2 != nil && !res2.Hang {
-					vs = append(vs, c.judgeSecond(&j, res1, res2)...)
+				if j.Reuse {
+					vs = c.judgeReuse(&j, res1)
+				} else {
+					vs = append(vs, c.judgeFirst(&j, res1)...)
+					j2 := c.newJob(j.Prog, j.Exec, bytesOf(res1.After), nil)
+					c.runJobs([]*job{j2}, func(_ *job, res *result) { res2 = res })
+					if res2 != nil && !res2.Hang {
+						vs = append(vs, c.judgeSecond(&j, res1, res2)...)
+					}
 				}
 				for _, v := range vs {
 					if v.sig == sig {
@@ -1262,6 +1535,7 @@ func (c *checker) run() {
 	progs := allPrograms(thorough)
 	c.reference(progs)
 	c.subsetsPhase(progs)
+	c.reusePhase(progs)
 
 	// Soft budgets. On an idle 16-core machine quick takes well under a minute and
 	// thorough a few minutes; the budgets leave room for a heavily loaded machine.
@@ -1351,6 +1625,7 @@ func (c *checker) run() {
 	}, budget)
 	c.singleFaults("single-faults", progs, masks, allLabels, func(j *job) bool { return !pairCase(j) }, nil, budget)
 	c.confirm()
+	c.reportCrashes()
 
 	var names []string
 	for _, p := range progs {
@@ -1372,6 +1647,7 @@ func (c *checker) run() {
 			"(a fault-free run is a function of program, executor and file contents and is executed once per distinct state); " +
 			"faults = every (quick: selected) label of the failure-free history of the same (program, executor, subset) x {fail, failpartial (writes), crash}, ordered pairs of them, " +
 			"and (no file fault) the source of shard s failing after r rows for every s, r; " +
+			"plus reuse histories in one session over complete files: run, scan, Result.Discard, Run(consumer, result), scan (cluster: one machine); " +
 			"non-trivial = every armed fault actually fired (vfs Fired; the failing source was actually asked), counted as distinct (program, executor, subset, label class, mode)",
 		"programs":                  names,
 		"executors":                 executors,
@@ -1385,6 +1661,7 @@ func (c *checker) run() {
 		"mechanisms":                mech,
 		"key_to_shard_learned":      c.keyShard,
 		"violation_candidates":      len(c.pending),
+		"process_crashes":           len(c.crashes),
 		"process_model":             "every run has its own volume; the next run gets a copy of the files committed when the previous run returned (= the process exits); a crash makes every later file operation of that run fail",
 	})
 }
